@@ -40,6 +40,44 @@ def lean_chars(s):
     return '[' + ', '.join(lean_char(c) for c in s) + ']'
 
 
+class _Alpha(ast.NodeTransformer):
+    """rename the parameters of every lambda to canonical names `_a0, _a1, …` (numbered by nesting order), so that source guards are
+    insensitive to the choice of bound names"""
+
+    def __init__(self):
+        self.scopes = []
+        self.n = 0
+
+    def visit_Lambda(self, node):
+        a = node.args
+        params = [x.arg for x in a.posonlyargs + a.args + a.kwonlyargs] + ([a.vararg.arg] if a.vararg else []) + ([a.kwarg.arg] if a.kwarg else [])
+        mapping = {}
+        for name in params:
+            mapping[name] = '_a%d' % self.n
+            self.n += 1
+        for x in a.posonlyargs + a.args + a.kwonlyargs + ([a.vararg] if a.vararg else []) + ([a.kwarg] if a.kwarg else []):
+            x.arg = mapping[x.arg]
+        a.defaults = [self.visit(d) for d in a.defaults]          # defaults are evaluated in the enclosing scope
+        a.kw_defaults = [self.visit(d) if d is not None else None for d in a.kw_defaults]
+        self.scopes.append(mapping)
+        node.body = self.visit(node.body)
+        self.scopes.pop()
+        return node
+
+    def visit_Name(self, node):
+        for m in reversed(self.scopes):
+            if node.id in m:
+                return ast.copy_location(ast.Name(id=m[node.id], ctx=node.ctx), node)
+        return node
+
+
+def canon_src(src, node):
+    """canonical text of an expression: parsed again from its own source segment (so the tree of the module is not touched), lambda parameters
+    alpha-renamed, printed by ast.unparse (layout, quote style, raw-string prefixes and redundant parentheses do not matter)"""
+    tree = ast.parse(seg(src, node).strip(), mode='eval')
+    return ast.unparse(_Alpha().visit(tree))
+
+
 def _target_names(node):
     out = []
     for t in (node.targets if isinstance(node, ast.Assign) else [node.target]):
@@ -138,7 +176,7 @@ def public_fn(src, tree, name):
     if [x.arg for x in a.args] != ['formula', 'prefixes', 'infixes'] or a.vararg is not None or a.kwarg is None:
         raise ExtractError('%s: signature changed' % name)
     return dict(sub=_lambda_shape(c.args[0], name + ' sub'), sup=_lambda_shape(c.args[1], name + ' sup'),
-                formula_arg=' '.join(seg(src, c.args[2]).split()), prefixes=defaults['prefixes'], infixes=defaults['infixes'])
+                formula_arg=canon_src(src, c.args[2]), prefixes=defaults['prefixes'], infixes=defaults['infixes'])
 
 
 def print_attr(repo, rel, clsname):
@@ -184,7 +222,7 @@ def generate(repo):
     if len(subs) != 1 or not isinstance(subs[0].args[0], ast.Constant):
         raise ExtractError('_formula_to_format: expected one re.sub(<literal>, ...)')
     digit_regex = subs[0].args[0].value
-    digit_repl = ' '.join(seg(src, subs[0].args[1]).split())
+    digit_repl = canon_src(src, subs[0].args[1])
     infix_calls = [n for n in ast.walk(f2f) if isinstance(n, ast.Call) and isinstance(n.func, ast.Name) and n.func.id == '_subs'
                    and isinstance(n.args[0], ast.Constant)]
     if len(infix_calls) != 1 or not (isinstance(infix_calls[0].args[1], ast.Name) and infix_calls[0].args[1].id == 'infixes'):
